@@ -221,6 +221,15 @@ func (e *Engine) verifyFunc(key string, against *FuncContract, prefix string) (r
 	if !fc.Flags["noframe"] {
 		x.frameCheck(fc, env, st, reach)
 	}
+	if len(x.only) > 0 {
+		// thin unit: clauses of this function outside its clause families are not proved here, yet callers assume them
+		for i, en := range fc.Ensures {
+			if !x.keepThin("post", labelOr(en.Label, i)) {
+				x.sc.note("thin unit: clause NOT checked here, assumed by callers: ensures %s", strings.Join(strings.Fields(en.Text), " "))
+			}
+		}
+		x.sc.note("thin unit (clause families %s): preconditions of callees outside these families are not checked at the call sites; callees' postconditions are assumed there", strings.Join(x.only, ","))
+	}
 	res.Notes = x.sc.notes
 	for c := range x.calleesUsed {
 		res.Callees = append(res.Callees, c)
